@@ -94,6 +94,24 @@ def stratified(hists, k, rng, key=stratum, extra=0.4):
     return out, len(groups)
 
 
+def replacement_histories(hists):
+    """The systematic objective-replacement matrix contained in the graph: minimize(o1) [; subject_to(con11)] ; solve(m) ;
+    minimize(o2) ; solve(m) for every ordered pair of objective records, every method, with and without the constraint."""
+    out = []
+    for h in hists:
+        if len(h) not in (4, 5) or h[-1]['op'] != 'Solve' or h[-2]['op'] != 'SetObjective' or h[0]['op'] != 'SetObjective':
+            continue
+        fill = h[-3]
+        if fill['op'] != 'Solve' or fill['m'] != h[-1]['m'] or fill['strict'] or h[-1]['strict'] or fill.get('opts') or h[-1].get('opts'):
+            continue
+        if h[0]['sense'] != 'minimize' or h[-2]['sense'] != 'minimize' or h[0]['obj']['id'] == h[-2]['obj']['id']:
+            continue
+        if len(h) == 5 and not (h[1]['op'] == 'SubjectTo' and [c['id'] for c in h[1]['cons']] == [11]):
+            continue
+        out.append(h)
+    return out
+
+
 def parse_op(lab):
     name = lab.split('(')[0]
     args = tlaparse.parse_value('<<' + lab[len(name) + 1:-1] + '>>') if '(' in lab else []
